@@ -52,7 +52,7 @@ func genC04(dir, tier string, seed int64) {
 	r := rand.New(rand.NewSource(seed))
 	nMat, nGemm, nLin, nSc := 700, 500, 250, 200
 	if tier == "thorough" {
-		nMat, nGemm, nLin, nSc = 12000, 8000, 3000, 2000
+		nMat, nGemm, nLin, nSc = 36000, 24000, 9000, 6000
 	}
 	cw := newCaseWriter(dir, "C04_ops", opHeader("CheckC04"), opFooter,
 		"seeded random: MatMul over operand ranks 1..5 (vector.vector, vector.matrix, matrix.vector, stacks with broadcastable and non-broadcastable batch shapes, size-1 matrix dimensions inside a batch, inner extents matching or not); Gemm over M,K,N in 1..3, the 4 transpose combinations, alpha/beta in -2..3 or absent, C in {absent, scalar, (N), (1,N), (M,1), (M,N), (1), (1,1), wrong shapes}; LinearRegressor over 1..3 targets x 1..4 features, intercepts of length targets / 1 / wrong / absent, coefficient count divisible or not; Scaler over ranks 1..3 with offset/scale of length F, 1 or wrong; element types float32 (mostly), float64, int32, int64, uint32, uint64 (half of the integer MatMul cases with operands beyond 2^53 / products that wrap around the type); integer-valued data so that float arithmetic is exact and results are compared exactly", false, 300)
@@ -248,7 +248,7 @@ func genC04Float(dir, tier string, r *rand.Rand) {
 	defer func() { payloadAsIntegers = true }()
 	n := 120
 	if tier == "thorough" {
-		n = 3000
+		n = 8000
 	}
 	cw := newCaseWriter(dir, "C04_float", opHeader("CheckC04F"), opFooter,
 		"seeded random float32 data that is not integer valued (magnitudes 1e-3..1e3, mixed signs): MatMul (2-D, M,K,N in 1..4), Gemm (4 transpose combinations, alpha/beta absent or random, C absent / scalar / (N) / (1,N) / (M,1) / (M,N)), LinearRegressor (1..3 targets x 1..4 features, intercepts given / one / absent), Scaler (offset and scale per feature or one for all; one case in three with x within a few units of an offset of magnitude 1e5..2e9, where an algebraically equal but numerically different formula cancels): every output element must lie in the rounding-aware enclosure of the ONNX formula", false, 60)
